@@ -219,6 +219,26 @@ static void case_function(Rng& rng, uint64_t index)
 }
 
 // ------------------------------------------------------------------------------------------------------------------
+// "rounds to the requested digits": the value Round() gives for the quotient, or - when the implementation forms the quotient differently (product with
+// the reciprocal: the quotient may sit on the other side of a rounding boundary) - any d-digit number within half a unit of the d-th digit of it
+static bool rounded_ok(double got, double q, int digits)
+{
+	if(near_ulps(got, Round(q, (unsigned) digits), 4))
+		return true;
+	if(q == 0 || !std::isfinite(q) || !std::isfinite(got))
+		return false;
+	if(!near_ulps(Round(got, (unsigned) digits), got, 4))
+		return false;
+	int e = (int) std::floor(std::log10(std::fabs(q)));
+	for(int de = -1; de <= 1; de++)
+	{
+		double unit_d = std::pow(10.0, e + de - digits + 1);
+		if(std::fabs(got - q) <= 0.5 * unit_d * (1 + 1e-9) && std::fabs(q) >= std::pow(10.0, e + de) * (1 - 1e-9) && std::fabs(q) < std::pow(10.0, e + de + 1) * (1 + 1e-9))
+			return true;
+	}
+	return false;
+}
+
 static void case_in_units(Rng& rng, uint64_t index)
 {
 	double unit = rng.loguni(1e-30, 1e30);
@@ -242,14 +262,14 @@ static void case_in_units(Rng& rng, uint64_t index)
 	bool round_ok = true;
 	// scalar
 	worst	 = std::max(worst, rel(In_Units(t[0][0], unit), q[0][0]));
-	round_ok = round_ok && same_bits(In_Units(t[0][0], unit, true, digits), Round(t[0][0] / unit, (unsigned) digits));
+	round_ok = round_ok && rounded_ok(In_Units(t[0][0], unit, true, digits), t[0][0] / unit, digits);
 	// std::vector
 	std::vector<double> v1 = In_Units(t[0], unit), v1r = In_Units(t[0], unit, true, digits);
 	bool shape = v1.size() == (size_t) cols && v1r.size() == (size_t) cols;
 	for(int j = 0; shape && j < cols; j++)
 	{
 		worst	 = std::max(worst, rel(v1[j], q[0][j]));
-		round_ok = round_ok && same_bits(v1r[j], Round(t[0][j] / unit, (unsigned) digits));
+		round_ok = round_ok && rounded_ok(v1r[j], t[0][j] / unit, digits);
 	}
 	// nested, single unit
 	std::vector<std::vector<double>> m1 = In_Units(t, unit), m1r = In_Units(t, unit, true, digits);
@@ -260,7 +280,7 @@ static void case_in_units(Rng& rng, uint64_t index)
 		for(int j = 0; shape && j < cols; j++)
 		{
 			worst	 = std::max(worst, rel(m1[i][j], q[i][j]));
-			round_ok = round_ok && same_bits(m1r[i][j], Round(t[i][j] / unit, (unsigned) digits));
+			round_ok = round_ok && rounded_ok(m1r[i][j], t[i][j] / unit, digits);
 		}
 	}
 	// nested, per-column units
@@ -276,7 +296,7 @@ static void case_in_units(Rng& rng, uint64_t index)
 		for(int j = 0; shape && j < cols; j++)
 		{
 			worst	 = std::max(worst, rel(m2[i][j], q[i][j]));
-			round_ok = round_ok && same_bits(m2r[i][j], Round(tc[i][j] / dims[j], (unsigned) digits));
+			round_ok = round_ok && rounded_ok(m2r[i][j], tc[i][j] / dims[j], digits);
 		}
 	}
 	// Vector and Matrix
@@ -286,7 +306,7 @@ static void case_in_units(Rng& rng, uint64_t index)
 	for(int j = 0; shape && j < cols; j++)
 	{
 		worst	 = std::max(worst, rel(vv1[j], q[0][j]));
-		round_ok = round_ok && same_bits(vv1r[j], Round(t[0][j] / unit, (unsigned) digits));
+		round_ok = round_ok && rounded_ok(vv1r[j], t[0][j] / unit, digits);
 	}
 	Matrix mm(t);
 	Matrix mm1 = In_Units(mm, unit), mm1r = In_Units(mm, unit, true, digits);
@@ -295,7 +315,7 @@ static void case_in_units(Rng& rng, uint64_t index)
 		for(int j = 0; j < cols; j++)
 		{
 			worst	 = std::max(worst, rel(mm1[i][j], q[i][j]));
-			round_ok = round_ok && same_bits(mm1r[i][j], Round(t[i][j] / unit, (unsigned) digits));
+			round_ok = round_ok && rounded_ok(mm1r[i][j], t[i][j] / unit, digits);
 		}
 	require("in-units-overloads-keep-the-shape", shape, [&] { return J().i("rows", rows).i("columns", cols); });
 	judge("in-units-undoes-multiplication-by-the-unit", worst, 2 * EPS, [&] { return J().d("worst_relative_error", worst); });
